@@ -134,6 +134,14 @@ def r_segment_name(ctx):
             ctx.violation(rid, fi.qual, loc(fi), "segment name derived from the key", f"the segment name {vkey(name)[:100]} does not depend on the key: "
                           f"every dataset would be written to the same shared-memory segment")
             return
+        from ..terms import Sub as _Sub
+        cut = [t for t in subterms(name) if isinstance(t, _Sub) and vkey(t.base) in ("key", "str(key)")]
+        if cut:
+            ctx.violation(rid, fi.qual, loc(fi), "segment name identifies the key",
+                          f"on the path where {', '.join(f'{d.key[:40]}={d.value}' for d in p.decisions[-2:])} the segment name {vkey(name)[:100]} contains only a piece of the key "
+                          f"({vkey(cut[0])[:40]}): two keys that agree on that piece share one segment and one spill file, and a reader of the first gets the bytes of the "
+                          f"second — a truncated *digest* of the whole key is fine, a truncated key is not")
+            return
         if not mentions(name, "self.prefix") and "'p'" not in vkey(name):
             ctx.violation(rid, fi.qual, loc(fi), "segment name carries the store prefix", f"the segment name {vkey(name)[:100]} lacks the store's prefix "
                           f"(stores of different hosts on one machine would collide)")
@@ -714,6 +722,21 @@ def r_disk(ctx):
         else:
             ctx.ok("C09.R8", loc(fi), f"page-out path ({'exception' if raised else 'clean'}): write<unlink, callback({cb[0]})")
     ctx.floor("C09.R8.exception_paths", nexc, 3)
+    # the segment vanished under the job (a purge or the exit sweep unlinked it while the copy was running): still a failure — success means "this job
+    # removed the segment", which is what entitles the completion callback to credit the space; the party that unlinked it has credited it already
+    for exc in ("builtins.FileNotFoundError", "builtins.OSError"):
+        ip = Interp(repo, raising=lambda d, _e=exc: _e if d.get("method") == "unlink" else None)
+        for p in ip.explore(fi):
+            if not any(e.kind == "raise" and e.data.get("from_call") for e in p.effects):
+                continue
+            cb = [e.data["args"][0] for e in p.effects if e.kind == "call" and e.data["name"] == "callback" and e.data["args"]]
+            if cb != [False]:
+                ctx.violation("C09.R8", fi.qual, loc(fi), "a page-out whose unlink failed is a failed page-out",
+                              f"unlinking the segment raises {exc.rsplit('.', 1)[-1]} (somebody else removed it meanwhile) and the job reports callback{cb}: on success the store "
+                              f"credits the dataset's size — a second time, since whoever unlinked the segment has credited it already; free space then exceeds what is free")
+                break
+        else:
+            ctx.ok("C09.R8", loc(fi), f"page-out: unlink failing with {exc.rsplit('.', 1)[-1]} -> callback(False)")
     fi = repo.func(f"{D}._page_in")
     ctx.analysed(fi.qual)
     paths = Interp(repo, raising=lambda d: d["name"].rsplit(".", 1)[-1] in ("SharedMemory", "open", "read"), max_while=2).explore(fi)
